@@ -41,12 +41,12 @@ func (s *verifStream) Read(p []byte) (int, error) {
 	s.all = append(s.all, data...)
 	return m.n, m.err
 }
-func (s *verifStream) Write(p []byte) (int, error)            { s.writes++; return len(p), nil }
-func (s *verifStream) Close() error                           { s.closed = true; return nil }
-func (s *verifStream) BufferedAmount() uint64                 { return s.buffered }
-func (s *verifStream) SetReadDeadline(time.Time) error        { return nil }
-func (s *verifStream) SetBufferedAmountLowThreshold(uint64)   {}
-func (s *verifStream) OnBufferedAmountLow(f func())           { s.lowCb = f }
+func (s *verifStream) Write(p []byte) (int, error)          { s.writes++; return len(p), nil }
+func (s *verifStream) Close() error                         { s.closed = true; return nil }
+func (s *verifStream) BufferedAmount() uint64               { return s.buffered }
+func (s *verifStream) SetReadDeadline(time.Time) error      { return nil }
+func (s *verifStream) SetBufferedAmountLowThreshold(uint64) {}
+func (s *verifStream) OnBufferedAmountLow(f func())         { s.lowCb = f }
 
 type verifNetConn struct{ net.Conn }
 
@@ -113,7 +113,7 @@ func VerifC16SCTPRead() {
 // not disturb the first; after everybody returned nothing is registered.
 // verif:shards=4
 func VerifC16Listener() {
-	verifnd.Sequential() // the scenario is ordered by Settle points; see bounds
+	verifnd.Sequential()           // the scenario is ordered by Settle points; see bounds
 	k := verifnd.Choose("case", 4) // sharded
 	sameSecret := k%2 == 1
 	cancelFirst := k/2 == 1
